@@ -1461,3 +1461,6 @@ func BoundTarget(fn *ssa.Function) *ssa.Function {
 	}
 	return target
 }
+
+// FlipOp mirrors a comparison operator (a op b == b FlipOp(op) a).
+func FlipOp(op token.Token) token.Token { return flip(op) }
